@@ -608,3 +608,6 @@ def run(ctx):
     rule_lane_copy(ctx)
     rule_hard_decode(ctx)
     rule_every_tid_listed(ctx)
+    # a thread that could not be attached is omitted *and reported*: the failing-attach branch pushes that error
+    from rules import c11
+    c11.rule_soft_sites(ctx, R="C04/omitted-thread-reported", only=("suspend_thread",), floor=1)
